@@ -233,6 +233,16 @@ example : decode noFilter (.choice 1 false 2 [.const (.int 1), .const (.int 2), 
 example : decode noFilter (.choice 1 false 2 [.const (.int 1), .const (.int 2), .const (.int 3)] true false)
     (.mk none [.mk (some (.idx 1)) [], .mk (some (.idx 1)) []]) = .error .value := by rfl   -- not distinct
 
+/-- The sweep of a multi-choice (what `pg.iter` walks through) only produces index sequences of
+length `k` that satisfy the `distinct` / `sorted` constraints: iteration never leaves the
+constrained space that `validate` / `decode` accept. -/
+theorem C13_manyof_sweep_constrained (subs : List (List DNA)) (dst so : Bool) (k : Nat) :
+    ∀ ds ∈ enumMulti subs dst so k [],
+      ∃ is, allIdx ds = some is ∧ is.length = k ∧ constraintOk dst so is = true := by
+  intro ds hds
+  obtain ⟨is, h1, h2, h3⟩ := enumMulti_constrained subs dst so k [] (by simp [constraintOk, nodupNat, sortedNat]) ds hds
+  exact ⟨is, h1, h2, by simpa using h3⟩
+
 /-- **First-match rule of `encode`.** A value that several candidates of a selected `oneof` can
 encode is attributed to the *first* of them: the DNA carries the least matching index. -/
 theorem C13_first_match (W : Cfg) (tag k : Nat) (cands : List Tmpl) (dst so : Bool) (v : Tmpl) (d : DNA)
@@ -241,6 +251,21 @@ theorem C13_first_match (W : Cfg) (tag k : Nat) (cands : List Tmpl) (dst so : Bo
       (∀ j cj, j < i → cands[j]? = some cj → ∀ d', encode W cj v ≠ .ok d') ∧
       d = DNA.norm none [DNA.norm none [DNA.norm (some (.idx i)) [child]]] :=
   oneof_encode_first_match W tag k cands dst so v d hW h
+
+/-! ## Dynamic evaluation (`pg.hyper.trace` / `DynamicEvaluationContext`) -/
+
+/-- A function that requests the placeholders `ps` one after the other is modelled as the template
+`[p₁, …, pₙ]`: the decision points are collected in call order, each with its own sub-space, and the
+`where` filter drops exactly the unselected ones (a filtered-out choice is still searched for
+selected placeholders inside its candidates). On the code, `pg.hyper.trace(fn, where).dna_spec` and
+`ctx.apply(dna)` are compared with this model on every generated case. -/
+theorem C13_trace_collection (W : Cfg) (ps : List Tmpl) :
+    dnaSpec W (.node .list ps) = .space (ps.flatMap (specT W)) := by
+  simp only [dnaSpec, specT]
+  congr 1
+  induction ps with
+  | nil => simp [specL]
+  | cons p ps ih => simp [specL, ih]
 
 /-! ## A decidable sufficient condition for "distinguishable" -/
 
